@@ -278,4 +278,24 @@ theorem litRaw_quoted {q : Char} {t : Table} (hok : rawTableOK q t = true) (s re
     simp only [List.cons_append, this, false_and, if_false]
     exact hsc
 
+
+/-- raw literal written WITHOUT any translation: exact whenever the text is raw-safe -/
+theorem litRaw_plain {q : Char} {t : Table} (hok : rawTableOK q t = true) (s rest : List Char)
+    (hs : rawSafe q t s = true) (hrest : rest.head? ≠ some q) :
+    litRaw q (q :: s ++ [q] ++ rest) = some (s, rest) := by
+  have h := litRaw_quoted hok s rest hs hrest
+  simp only [rawTableOK, Bool.and_eq_true, Option.isNone_iff_eq_none] at hok
+  unfold quoted at h
+  rw [translate_id_of_rawSafe q t hok.2 s hs] at h
+  exact h
+
+/-- control characters (U+0001–U+001F, U+007F) as an (otherwise unused) key table: `rawSafe` then
+excludes them, as `pattern_literal` does -/
+def ctrlKeys : Table := ((List.range 32).drop 1 ++ [127]).map (fun n => (Char.ofNat n, []))
+
+/-- `model/pydantic/types.py pattern_literal`, the choice: raw literal iff no single quote, no
+control character and no dangling backslash (validated against the real function by the
+`esc.patternraw` campaign) -/
+def patternRawOK (p : List Char) : Bool := rawSafe '\'' ctrlKeys p
+
 end Dcg.Proofs.Escape
